@@ -31,6 +31,10 @@ type Opts struct {
 	// StatsCarry is the ExprCnt already present in the Stats value handed to the
 	// Statistics option (a Stats value reused from an earlier parse).
 	StatsCarry uint64 `json:"stats_carry,omitempty"`
+	// ReuseOptions: Option values are created once per process and value and
+	// applied to many parsers (an Option "returns the previous setting as an
+	// Option": the values are meant to be kept and re-applied).
+	ReuseOptions bool `json:"reuse_options,omitempty"`
 }
 
 // ErrElem is one element of the error list as the glue sees it.
